@@ -95,8 +95,13 @@ class rule(Tactic):
         if unmatched_vars:
             raise theory.ParameterQueryException(list("param_" + name for name in unmatched_vars))
 
-        # Substitute and normalize
-        As, _ = th.prop.subst_norm(inst).strip_implies()
+        # Substitute and normalize. As in apply_theorem, there is no need to
+        # normalize if the theorem is a first-order pattern: beta-redexes can
+        # then only come from the goal, and are kept as they are stated.
+        if matcher.is_fo_pattern(th.prop):
+            As, _ = th.prop.subst(inst).strip_implies()
+        else:
+            As, _ = th.prop.subst_norm(inst).strip_implies()
         goal_Alen = len(goal.assums)
         if goal_Alen > 0:
             As = As[:-goal_Alen]
